@@ -26,6 +26,8 @@ def main():
         args.remove('--round2'); root = '/tmp/sb'; names = {'a': 'c', 'b': 'd'}
     if '--round3' in args:
         args.remove('--round3'); root = '/tmp/sc'; names = {'a': 'e', 'b': 'f'}
+    if '--round4' in args:
+        args.remove('--round4'); root = '/tmp/sd'; names = {'a': 'g', 'b': 'h'}
     for prop in args:
         src = '%s/%s/out' % (root, prop)
         for v in ('a', 'b'):
